@@ -122,3 +122,171 @@ package limiter
 //@   ensures[C09] algorithm_sees_drop: ncalls("core.Limit.OnSample") == 1 ==> callarg("core.Limit.OnSample", 0, 1) == old(l.limiter.sample.minRTT) && callarg("core.Limit.OnSample", 0, 3) == true
 //@   ensures[C05] enforcement_follows_estimate: ncalls("core.Limit.OnSample") == 1 ==> ncalls("core.Strategy.SetLimit") == 1 && callarg("core.Strategy.SetLimit", 0, 0) == l.limiter.limit.est
 //@   owns[C17]
+
+// ---------------------------------------------------------------------------------------------
+// Blocking / deadline limiters and the delegating listener (C02, C13)
+
+//@ func blockUntilSignaled
+//@   ensures[C13] timer_armed_iff_timeout: ncalls("time.NewTimer") == ite(timeout > 0, 1, 0)
+//@   ensures[C13] timer_duration: timeout > 0 ==> callarg("time.NewTimer", 0, 0) == timeout
+//@   ensures[C13] one_wait: ncalls("select") == 1 && ncalls("context.Context.Done") == 1 && callarg("select", 0, 0) == callres("context.Context.Done", 0, 0)
+//@   ensures[C13] timer_participates: timeout > 0 ==> callarg("select", 0, 2) != nil
+//@   ensures[C13] true_only_when_signalled: result <==> callres("select", 0, 0) == 1
+//@   ensures[C13] one_waiter_goroutine: ncalls("go limiter.blockUntilSignaled$1") == 1
+//@   safety[C13]
+
+//@ type BlockingLimiter
+//@   immutable: logger, delegate, c, timeout
+//@   inv deps: this.logger != nil && this.delegate != nil && this.c != nil && this.timeout >= 0
+//@ type DeadlineLimiter
+//@   immutable: logger, delegate, deadline, c
+//@   inv deps: this.logger != nil && this.delegate != nil && this.c != nil
+//@ type DelegateListener
+//@   immutable: delegateListener, c
+
+//@ func NewBlockingLimiter
+//@   ensures[C13,C19] fields: result != nil && result.delegate == delegate && result.timeout == max(0, timeout) && result.c != nil && result.logger != nil
+
+//@ func (*BlockingLimiter).tryAcquire
+//@   maintains l
+//@   loop 1 invariant[C13] blocks_with_configured_timeout: ncallsIter("limiter.blockUntilSignaled") <= 1 && (ncallsIter("limiter.blockUntilSignaled") == 1 ==> callargIter("limiter.blockUntilSignaled", 0, 0) == ctx && callargIter("limiter.blockUntilSignaled", 0, 1) == l.c && callargIter("limiter.blockUntilSignaled", 0, 2) == l.timeout)
+//@   ensures[C02] listener_iff_ok: ret1 <==> ret0 != nil
+//@   ensures[C13] cancel_checked_first: ncallsIter("context.Context.Err") == 1 && (callresIter("context.Context.Err", 0, 0) != nil ==> !ret1 && ncallsIter("core.Limiter.Acquire") == 0)
+//@   ensures[C13] refused_only_when_cancelled: !ret1 ==> callresIter("context.Context.Err", 0, 0) != nil
+//@   ensures[C02] grant_is_the_delegates: ret1 ==> (ncallsIter("core.Limiter.Acquire") == 1 && ret0 == callresIter("core.Limiter.Acquire", 0, 0) && callresIter("core.Limiter.Acquire", 0, 1)) || (ncallsIter("core.Limiter.Acquire") == 2 && ret0 == callresIter("core.Limiter.Acquire", 1, 0) && callresIter("core.Limiter.Acquire", 1, 1) && callresIter("core.Limiter.Acquire", 0, 0) == nil)
+//@   ensures[C02] delegate_is_ours: ncallsIter("core.Limiter.Acquire") >= 1 ==> callrecvIter("core.Limiter.Acquire", 0) == l.delegate
+
+//@ func (*BlockingLimiter).Acquire
+//@   maintains l
+//@   ensures[C02] listener_iff_ok: ret1 <==> ret0 != nil
+//@   ensures[C02] follows_tryAcquire: ncalls("(*limiter.BlockingLimiter).tryAcquire") == 1 && (ret1 <==> callres("(*limiter.BlockingLimiter).tryAcquire", 0, 1))
+//@   ensures[C02,C10] wraps_delegate_listener: ret1 ==> dyntype(ret0, "*limiter.DelegateListener") && as(ret0, "*limiter.DelegateListener").delegateListener == callres("(*limiter.BlockingLimiter).tryAcquire", 0, 0) && as(ret0, "*limiter.DelegateListener").c == l.c
+
+//@ func (*DeadlineLimiter).tryAcquire
+//@   maintains l
+//@   loop 1 invariant[C13] blocks_until_deadline: ncallsIter("limiter.blockUntilSignaled") <= 1 && (ncallsIter("limiter.blockUntilSignaled") == 1 ==> callargIter("limiter.blockUntilSignaled", 0, 0) == ctx && callargIter("limiter.blockUntilSignaled", 0, 1) == l.c && callargIter("limiter.blockUntilSignaled", 0, 2) > 0 && callargIter("limiter.blockUntilSignaled", 0, 2) == l.deadline - callresIter("time.Now", 1, 0))
+//@   ensures[C02] listener_iff_ok: ok <==> listener != nil
+//@   ensures[C13] cancel_checked_first: ncallsIter("context.Context.Err") == 1 && (callresIter("context.Context.Err", 0, 0) != nil ==> !ok && ncallsIter("core.Limiter.Acquire") == 0)
+//@   ensures[C13] past_deadline_refused: callresIter("context.Context.Err", 0, 0) == nil && callresIter("time.Now", 0, 0) > l.deadline ==> !ok && ncallsIter("core.Limiter.Acquire") == 0
+//@   ensures[C13] refusal_reasons: !ok ==> callresIter("context.Context.Err", 0, 0) != nil || callresIter("time.Now", 0, 0) > l.deadline || (ncallsIter("time.Now") == 2 && l.deadline - callresIter("time.Now", 1, 0) <= 0)
+//@   ensures[C02] grant_is_the_delegates: ok ==> (ncallsIter("core.Limiter.Acquire") == 1 && listener == callresIter("core.Limiter.Acquire", 0, 0)) || (ncallsIter("core.Limiter.Acquire") == 2 && listener == callresIter("core.Limiter.Acquire", 1, 0))
+
+//@ func (*DeadlineLimiter).Acquire
+//@   maintains l
+//@   ensures[C02] listener_iff_ok: ok <==> listener != nil
+//@   ensures[C02] follows_tryAcquire: ncalls("(*limiter.DeadlineLimiter).tryAcquire") == 1 && (ok <==> callres("(*limiter.DeadlineLimiter).tryAcquire", 0, 1))
+//@   ensures[C02,C10] wraps_delegate_listener: ok ==> dyntype(listener, "*limiter.DelegateListener") && as(listener, "*limiter.DelegateListener").delegateListener == callres("(*limiter.DeadlineLimiter).tryAcquire", 0, 0) && as(listener, "*limiter.DelegateListener").c == l.c
+
+//@ func (*DelegateListener).OnSuccess
+//@   requires objs: l.delegateListener != nil && l.c != nil
+//@   ensures[C02] forwards_once: ncalls("core.Listener.OnSuccess") == 1 && callrecv("core.Listener.OnSuccess", 0) == l.delegateListener && ncalls("core.Listener.OnIgnore") == 0 && ncalls("core.Listener.OnDropped") == 0
+//@   ensures[C02,C10] then_wakes_waiters: ncalls("(*sync.Cond).Broadcast") == 1 && callrecv("(*sync.Cond).Broadcast", 0) == l.c && callpos("core.Listener.OnSuccess", 0) < callpos("(*sync.Cond).Broadcast", 0)
+//@ func (*DelegateListener).OnIgnore
+//@   requires objs: l.delegateListener != nil && l.c != nil
+//@   ensures[C02] forwards_once: ncalls("core.Listener.OnIgnore") == 1 && callrecv("core.Listener.OnIgnore", 0) == l.delegateListener && ncalls("core.Listener.OnSuccess") == 0 && ncalls("core.Listener.OnDropped") == 0
+//@   ensures[C02,C10] then_wakes_waiters: ncalls("(*sync.Cond).Broadcast") == 1 && callrecv("(*sync.Cond).Broadcast", 0) == l.c && callpos("core.Listener.OnIgnore", 0) < callpos("(*sync.Cond).Broadcast", 0)
+//@ func (*DelegateListener).OnDropped
+//@   requires objs: l.delegateListener != nil && l.c != nil
+//@   ensures[C02] forwards_once: ncalls("core.Listener.OnDropped") == 1 && callrecv("core.Listener.OnDropped", 0) == l.delegateListener && ncalls("core.Listener.OnSuccess") == 0 && ncalls("core.Listener.OnIgnore") == 0
+//@   ensures[C02,C10] then_wakes_waiters: ncalls("(*sync.Cond).Broadcast") == 1 && callrecv("(*sync.Cond).Broadcast", 0) == l.c && callpos("core.Listener.OnDropped", 0) < callpos("(*sync.Cond).Broadcast", 0)
+
+// ---------------------------------------------------------------------------------------------
+// Queue limiter (C02, C11, C12, C13). container/list is a ghost-state stub: lmember(list, e),
+// lstamp(e) (arrival order; PushFront stamps increase), llen(list), lvalue(e) = the element's Value.
+//@ type queue
+//@   immutable: list, ordering
+//@   inv deps: this.list != nil
+//@ type queueElement
+//@   immutable: ctx, releaseChan, next, prev
+//@ type QueueBlockingLimiter
+//@   immutable: delegate, maxBacklogSize, maxBacklogTimeout, backlogEvictDoneCtx, ordering, backlog
+//@   inv deps: this.delegate != nil && this.backlog != nil && inv(this.backlog)
+//@ type QueueBlockingListener
+//@   immutable: delegateListener, limiter
+
+//@ func (*queue).len
+//@   maintains q
+//@   ensures[C12,C20] counts_members: result == uint64(llen(q.list))
+//@   assigns nothing
+//@   owns[C17]
+
+//@ func (*queue).evictionFunc
+//@   ensures[C12] closure: isfunc(result, "(*limiter.queue).evictionFunc$1") && *captured(result, "(*limiter.queue).evictionFunc$1", 0) == q && *captured(result, "(*limiter.queue).evictionFunc$1", 1) == e
+//@   assigns nothing
+
+//@ func (*queue).evictionFunc$1
+//@   requires objs: q != nil && inv(q)
+//@   ensures[C12] removed: !lmember(q.list, e)
+//@   ensures[C12] others_stay: forall o ref :: o != ref(e) ==> lmember(q.list, o) == old(lmember(q.list, o))
+//@   ensures[C12] length: llen(q.list) == ite(old(lmember(q.list, e)), old(llen(q.list)) - 1, old(llen(q.list)))
+//@   ensures[C12,C17] under_write_lock: calledUnder("(*container/list.List).Remove", 0, q.mu)
+//@   owns[C17]
+
+//@ func (*queue).push
+//@   maintains q
+//@   ensures[C12] one_more: llen(q.list) == old(llen(q.list)) + 1 && ncalls("(*container/list.List).PushFront") == 1
+//@   ensures[C11] newest: lmember(q.list, qPushed()) && (forall o ref :: old(lmember(q.list, o)) ==> lmember(q.list, o) && lstamp(o) < lstamp(qPushed()))
+//@   ensures[C02,C12] waiter_record: dyntype(callarg("(*container/list.List).PushFront", 0, 0), "*limiter.queueElement") && as(callarg("(*container/list.List).PushFront", 0, 0), "*limiter.queueElement").ctx == ctx && as(callarg("(*container/list.List).PushFront", 0, 0), "*limiter.queueElement").releaseChan == ret1 && fresh(ret1) && chancap(ret1) == 0
+//@   ensures[C12] evict_closure: isfunc(ret0, "(*limiter.queue).evictionFunc$1") && *captured(ret0, "(*limiter.queue).evictionFunc$1", 0) == q && lmember(q.list, peeked(ret0))
+//@   ensures[C12] evict_removes_it: ref(*captured(ret0, "(*limiter.queue).evictionFunc$1", 1)) == qPushed()
+//@   owns[C17]
+//@ define qPushed() ref = ref(callres("(*container/list.List).PushFront", 0, 0))
+
+//@ define peeked(evict limiter.EvictFunc) ref = ref(*captured(evict, "(*limiter.queue).evictionFunc$1", 1))
+
+//@ func (*queue).peek
+//@   maintains q
+//@   ensures[C11,C12] empty: llen(q.list) == 0 ==> ret0 == nil && ret1 == nil
+//@   ensures[C11] unknown_ordering: q.ordering != "fifo" && q.ordering != "lifo" ==> ret0 == nil && ret1 == nil
+//@   ensures[C11] nonempty: llen(q.list) > 0 && (q.ordering == "fifo" || q.ordering == "lifo") ==> ret0 != nil && isfunc(ret0, "(*limiter.queue).evictionFunc$1") && *captured(ret0, "(*limiter.queue).evictionFunc$1", 0) == q && lmember(q.list, peeked(ret0)) && ref(ret1) == lvalue(peeked(ret0))
+//@   ensures[C11,C12] evict_closure: (ret1 != nil ==> ret0 != nil) && (ret0 != nil ==> isfunc(ret0, "(*limiter.queue).evictionFunc$1") && *captured(ret0, "(*limiter.queue).evictionFunc$1", 0) == q)
+//@   ensures[C11] fifo_longest_waiting: q.ordering == "fifo" && ret0 != nil ==> (forall o ref :: lmember(q.list, o) ==> lstamp(peeked(ret0)) <= lstamp(o))
+//@   ensures[C11] lifo_most_recent: q.ordering == "lifo" && ret0 != nil ==> (forall o ref :: lmember(q.list, o) ==> lstamp(o) <= lstamp(peeked(ret0)))
+//@   ensures[C12] does_not_remove: llen(q.list) == old(llen(q.list)) && (forall o ref :: lmember(q.list, o) == old(lmember(q.list, o)))
+//@   owns[C17]
+
+//@ func (*queueElement).setListener
+//@   ensures[C02] accepted_means_sent: result <==> ncalls("select") == 1 && callres("select", 0, 0) == 0
+//@   ensures[C02] sends_that_listener: ncalls("select") == 1 && callarg("select", 0, 0) == e.releaseChan && callarg("select", 0, 1) == listener
+//@   ensures[C02] closes_after_send: result ==> ncalls("chan.close") == 1
+
+//@ func (*QueueBlockingListener).unblock
+//@   requires objs: l.limiter != nil && inv(l.limiter)
+//@   inlines (*queueElement).setListener
+//@   ensures[C02,C12] empty_backlog_no_acquire: old(llen(l.limiter.backlog.list)) == 0 ==> ncalls("core.Limiter.Acquire") == 0
+//@   ensures[C02] at_most_one_acquire: ncalls("core.Limiter.Acquire") <= 1
+//@   ensures[C11] for_the_peeked_waiter: ncalls("core.Limiter.Acquire") == 1 ==> callrecv("core.Limiter.Acquire", 0) == l.limiter.delegate && ncalls("(*limiter.queue).peek") == 1 && callarg("core.Limiter.Acquire", 0, 0) == callres("(*limiter.queue).peek", 0, 1).ctx
+//@   ensures[C02,C12] granted_is_evicted_then_handed: ncalls("core.Limiter.Acquire") == 1 && callres("core.Limiter.Acquire", 0, 1) && callres("core.Limiter.Acquire", 0, 0) != nil ==> ncalls("(*limiter.queue).evictionFunc$1") == 1 && ncalls("select") == 1 && callpos("(*limiter.queue).evictionFunc$1", 0) < callpos("select", 0) && callarg("select", 0, 1) == callres("core.Limiter.Acquire", 0, 0) && callarg("select", 0, 0) == callres("(*limiter.queue).peek", 0, 1).releaseChan
+//@   ensures[C02] handed_or_returned: ncalls("core.Limiter.Acquire") == 1 && callres("core.Limiter.Acquire", 0, 1) && callres("core.Limiter.Acquire", 0, 0) != nil ==> (callres("select", 0, 0) == 0 && ncalls("core.Listener.OnIgnore") == 0) || (callres("select", 0, 0) != 0 && ncalls("core.Listener.OnIgnore") == 1 && callrecv("core.Listener.OnIgnore", 0) == callres("core.Limiter.Acquire", 0, 0))
+//@   ensures[C02] refused_touches_nothing: ncalls("core.Limiter.Acquire") == 1 && !(callres("core.Limiter.Acquire", 0, 1) && callres("core.Limiter.Acquire", 0, 0) != nil) ==> ncalls("(*limiter.queue).evictionFunc$1") == 0 && ncalls("select") == 0 && ncalls("core.Listener.OnIgnore") == 0
+//@   ensures[C02] never_completes_otherwise: ncalls("core.Listener.OnSuccess") == 0 && ncalls("core.Listener.OnDropped") == 0
+//@   ensures[C12,C17] serialised: ncalls("core.Limiter.Acquire") == 1 ==> calledUnder("core.Limiter.Acquire", 0, l.limiter.mu)
+//@   owns[C17]
+
+//@ func (*QueueBlockingListener).OnSuccess
+//@   requires objs: l.delegateListener != nil && l.limiter != nil && inv(l.limiter)
+//@   ensures[C02] forwards_once_then_unblocks: ncalls("core.Listener.OnSuccess") == 1 && callrecv("core.Listener.OnSuccess", 0) == l.delegateListener && ncalls("(*limiter.QueueBlockingListener).unblock") == 1 && callpos("core.Listener.OnSuccess", 0) < callpos("(*limiter.QueueBlockingListener).unblock", 0) && ncalls("core.Listener.OnIgnore") == 0 && ncalls("core.Listener.OnDropped") == 0
+//@ func (*QueueBlockingListener).OnIgnore
+//@   requires objs: l.delegateListener != nil && l.limiter != nil && inv(l.limiter)
+//@   ensures[C02] forwards_once_then_unblocks: ncalls("core.Listener.OnIgnore") == 1 && callrecv("core.Listener.OnIgnore", 0) == l.delegateListener && ncalls("(*limiter.QueueBlockingListener).unblock") == 1 && callpos("core.Listener.OnIgnore", 0) < callpos("(*limiter.QueueBlockingListener).unblock", 0) && ncalls("core.Listener.OnSuccess") == 0 && ncalls("core.Listener.OnDropped") == 0
+//@ func (*QueueBlockingListener).OnDropped
+//@   requires objs: l.delegateListener != nil && l.limiter != nil && inv(l.limiter)
+//@   ensures[C02] forwards_once_then_unblocks: ncalls("core.Listener.OnDropped") == 1 && callrecv("core.Listener.OnDropped", 0) == l.delegateListener && ncalls("(*limiter.QueueBlockingListener).unblock") == 1 && callpos("core.Listener.OnDropped", 0) < callpos("(*limiter.QueueBlockingListener).unblock", 0) && ncalls("core.Listener.OnSuccess") == 0 && ncalls("core.Listener.OnIgnore") == 0
+
+//@ func (*QueueBlockingLimiter).tryAcquire
+//@   maintains l
+//@   ensures[C02] first_try: ncalls("core.Limiter.Acquire") == 1 && callrecv("core.Limiter.Acquire", 0) == l.delegate && callarg("core.Limiter.Acquire", 0, 0) == ctx
+//@   ensures[C02] immediate_grant: callres("core.Limiter.Acquire", 0, 1) && callres("core.Limiter.Acquire", 0, 0) != nil ==> result == callres("core.Limiter.Acquire", 0, 0) && ncalls("(*limiter.queue).push") == 0
+//@   ensures[C12] full_backlog_refuses_at_once: !(callres("core.Limiter.Acquire", 0, 1) && callres("core.Limiter.Acquire", 0, 0) != nil) && callres("(*limiter.queue).len", 0, 0) >= l.maxBacklogSize ==> result == nil && ncalls("(*limiter.queue).push") == 0 && ncalls("select") == 0
+//@   ensures[C12] waits_only_below_bound: ncalls("(*limiter.queue).push") == 1 ==> callres("(*limiter.queue).len", 0, 0) < l.maxBacklogSize && callarg("(*limiter.queue).push", 0, 0) == ctx
+//@   ensures[C13] timer_iff_timeout: ncalls("(*limiter.queue).push") == 1 ==> ncalls("time.NewTimer") == ite(l.maxBacklogTimeout > 0, 1, 0) && (l.maxBacklogTimeout > 0 ==> callarg("time.NewTimer", 0, 0) == l.maxBacklogTimeout)
+//@   ensures[C13] waits_on_the_right_channels: ncalls("(*limiter.queue).push") == 1 ==> ncalls("select") == 1 && callarg("select", 0, 0) == callres("(*limiter.queue).push", 0, 1) && (l.maxBacklogTimeout > 0 <==> callarg("select", 0, 1) != nil) && (l.backlogEvictDoneCtx <==> ncalls("context.Context.Done") == 1) && (l.backlogEvictDoneCtx ==> callarg("select", 0, 2) == callres("context.Context.Done", 0, 0)) && (!l.backlogEvictDoneCtx ==> callarg("select", 0, 2) == nil)
+//@   ensures[C02,C12] handed_over: ncalls("select") == 1 && callres("select", 0, 0) == 0 ==> ncalls("funcvalue:value:limiter.EvictFunc") == 0
+//@   ensures[C12,C13] give_up_evicts: ncalls("select") == 1 && callres("select", 0, 0) != 0 ==> result == nil && ncalls("(*limiter.queue).evictionFunc$1") == 1 && callpos("select", 0) < callpos("(*limiter.queue).evictionFunc$1", 0)
+//@   owns[C17]
+
+//@ func (*QueueBlockingLimiter).Acquire
+//@   maintains l
+//@   ensures[C02] listener_iff_ok: ret1 <==> ret0 != nil
+//@   ensures[C02] follows_tryAcquire: ncalls("(*limiter.QueueBlockingLimiter).tryAcquire") == 1 && (ret1 <==> callres("(*limiter.QueueBlockingLimiter).tryAcquire", 0, 0) != nil)
+//@   ensures[C02,C10] wraps_delegate_listener: ret1 ==> dyntype(ret0, "*limiter.QueueBlockingListener") && as(ret0, "*limiter.QueueBlockingListener").delegateListener == callres("(*limiter.QueueBlockingLimiter).tryAcquire", 0, 0) && as(ret0, "*limiter.QueueBlockingListener").limiter == l
